@@ -67,6 +67,15 @@ fn sweep_programs() -> Vec<(Shape, Vec<Step>)> {
         ]),
         (Shape::U, vec![Step::FilterWithSide(vec![], SPred::In)]),
         (Shape::U, vec![Step::Map(EFun::Add(1)), Step::TryMap(EFun::Mod(5), PFun::Not(Box::new(PFun::ModEq(4, 0))))]),
+        // "the whole partition in one call": batch size usize::MAX and usize::MAX / 2
+        (Shape::KV, vec![
+            Step::MapValuesBatches(BATCH_MAX, BFun::Each(EFun::Add(1))),
+            Step::MapValuesBatches(BATCH_MAX - 1, BFun::Each(EFun::Mul(2))),
+        ]),
+        (Shape::U, vec![
+            Step::MapBatches(BATCH_MAX, BFun::Each(EFun::Add(1))),
+            Step::MapBatches(BATCH_MAX - 1, BFun::Dup),
+        ]),
         // expanding, chunk-sensitive batch function: sequential grid points only
         (Shape::U, vec![
             Step::MapBatches(4, BFun::Header),
